@@ -260,6 +260,51 @@ func c06NewDense(N int) {
 	rt.Reach("end")
 }
 
+// c06NewDenseSym: NewDense on EVERY byte slice for n vertices at once (every byte an
+// unconstrained symbolic 0..255, one path with guarded merging): IsEdge, Degrees, M as
+// formulas over the bytes; then the caller overwrites its slice.
+func c06NewDenseSym(n int) {
+	edges := rt.Bytes("edges", n*(n-1)/2)
+	orig := append([]byte{}, edges...)
+	g := NewDense(n, edges)
+	for k := range edges {
+		edges[k] = rt.Byte("scribble")
+	}
+	rt.Check(g.N() == n, "NewDense: N() wrong")
+	degs := g.Degrees()
+	rt.Check(len(degs) == n, "NewDense: Degrees() has the wrong length")
+	if g.N() != n || len(degs) != n {
+		return
+	}
+	on := func(i, j int) byte {
+		if i > j {
+			i, j = j, i
+		}
+		return byte(rt.B2I(orig[j*(j-1)/2+i] > 0))
+	}
+	wm := 0
+	for i := 0; i < n; i++ {
+		wd := 0
+		for j := 0; j < n; j++ {
+			if i == j {
+				continue
+			}
+			wd += int(on(i, j))
+			if i < j {
+				wm += int(on(i, j))
+				rt.Check(g.IsEdge(i, j) == (on(i, j) > 0), "NewDense: edge differs from the input byte (or follows the caller's later writes)")
+				rt.Check(g.IsEdge(j, i) == (on(i, j) > 0), "NewDense: IsEdge is not symmetric")
+			}
+		}
+		rt.Check(degs[i] == wd, "NewDense: Degrees() differs from adjacency")
+	}
+	rt.Check(g.M() == wm, "NewDense: M() differs from the number of edges")
+	rt.Reach("end")
+}
+
+func H_c06_newdensesym_q() { c06NewDenseSym(10) }
+func H_c06_newdensesym_t() { c06NewDenseSym(20) }
+
 func H_c06_newdense_q() { c06NewDense(4) }
 func H_c06_newdense_t() { c06NewDense(5) }
 
